@@ -222,7 +222,21 @@ func (r *Run) Violation(key, what string, witness any) {
 	}
 	if r.OutDir == "" {
 		r.t.Errorf("VIOLATION %s key=%s: %s witness=%s", r.ID, key, what, JSON(witness))
+	} else if r.nviol[key] <= 5 {
+		r.writeLocked(false)
 	}
+}
+
+// Stop reports whether the batch should end early: enough witnesses were
+// collected (a violating tree often makes every further case slow).
+func (r *Run) Stop() bool {
+	r.mu.Lock()
+	defer r.mu.Unlock()
+	n := 0
+	for _, c := range r.nviol {
+		n += c
+	}
+	return n >= 12 || len(r.res.Inconclusive) >= 20
 }
 
 func (r *Run) Violations() int {
@@ -250,7 +264,22 @@ func (r *Run) Inconclusive(reason string) {
 func (r *Run) Finish() {
 	r.mu.Lock()
 	defer r.mu.Unlock()
-	r.res.Finished = true
+	r.writeLocked(true)
+	if r.OutDir == "" {
+		r.t.Logf("%s: evaluations=%d distinct_nontrivial=%d counters=%v violations=%d inconclusive=%d",
+			r.ID, r.res.Evaluations, len(r.sigs), r.res.Counters, len(r.res.Violations), len(r.res.Inconclusive))
+		for n, s := range r.res.Sets {
+			r.t.Logf("  set %s: %d", n, len(s))
+		}
+	}
+	if r.progress != nil {
+		r.progress.Close()
+	}
+}
+
+// writeLocked writes the (partial or final) batch result; r.mu must be held.
+func (r *Run) writeLocked(finished bool) {
+	r.res.Finished = finished
 	r.res.WallS = time.Since(r.start).Seconds()
 	r.res.Sigs = r.res.Sigs[:0]
 	for s := range r.sigs {
@@ -266,11 +295,6 @@ func (r *Run) Finish() {
 		r.res.Sets[name] = l
 	}
 	if r.OutDir == "" {
-		r.t.Logf("%s: evaluations=%d distinct_nontrivial=%d counters=%v violations=%d inconclusive=%d",
-			r.ID, r.res.Evaluations, len(r.sigs), r.res.Counters, len(r.res.Violations), len(r.res.Inconclusive))
-		for n, s := range r.res.Sets {
-			r.t.Logf("  set %s: %d", n, len(s))
-		}
 		return
 	}
 	b, err := json.Marshal(&r.res)
@@ -293,9 +317,6 @@ func (r *Run) Finish() {
 	}
 	if err := os.Rename(tmp, filepath.Join(r.OutDir, fmt.Sprintf("batch-%d.json", r.Batch))); err != nil {
 		panic(err)
-	}
-	if r.progress != nil {
-		r.progress.Close()
 	}
 }
 
